@@ -242,6 +242,12 @@ structure ProtoCfg where
   bareNone : BareNone
   deriving Repr, DecidableEq
 
+/-- whose result `_FunctionCall.__call__` returns when the method has auxiliary companions -/
+inductive AuxResult where
+  | primaryOnly  -- `_cb_sync` only for `cnt == 0`: the primary context's result      (good)
+  | lastContext  -- `_cb_sync` for every context: the last auxiliary method's result
+  deriving Repr, DecidableEq
+
 structure Facts18 where
   /-- `if val is not None` in `_FunctionCall.__call__`: a keyword argument that is `None`
       does not replace a positional one -/
@@ -256,6 +262,10 @@ structure Facts18 where
   /-- `_is_empty_wrapper` (null.py) requires `len(out_message._type_info) == 0` -/
   ewMembers : Bool
   ignMany : IgnMany
+  auxResult : AuxResult
+  /-- `ctx.in_object = [None] * len(_type_info)` is rebuilt on every call: a `_FunctionCall`
+      object keeps no argument slots between calls -/
+  slotsPerCall : Bool
   xml : ProtoCfg
   soap : ProtoCfg
   json : ProtoCfg
@@ -273,6 +283,11 @@ def Facts18.Good (F : Facts18) : Prop :=
   F.ewWrapper = true ∧ F.ewMembers = true
 
 instance (F : Facts18) : Decidable F.Good := by unfold Facts18.Good; infer_instance
+
+/-- the decisions about auxiliary contexts and about state between calls -/
+def Facts18.GoodCalls (F : Facts18) : Prop := F.auxResult = .primaryOnly ∧ F.slotsPerCall = true
+
+instance (F : Facts18) : Decidable F.GoodCalls := by unfold Facts18.GoodCalls; infer_instance
 
 /-! ## NullServer: argument packing (null.py:135-147) -/
 
